@@ -119,6 +119,7 @@ def run(ck):
     pg = panic_guard(bp, "remainder_poly", want_empty=False)
     ck.ob("T", "build_proof:requires-dirty", bool(pg) and must_between(bp, None, pg, returns(bp))[0],
           "FriProver::build_proof refuses to run before layers were built", loc=bp.loc())
+    carried_state(ck, prog, bli, rs)
     remainder_exemption(ck, prog)
     layer_count_rule(ck, prog)
     agreement(ck, prog)
@@ -379,3 +380,76 @@ def remainder_sent(ck, prog, rule="SENT"):
                   f"{sorted((callee_name(bl.term(n[1])) or '?').split('::')[-1] for n in roots_h)}")
     if not done:
         ck.note(f"{rule}: the site that stores the remainder and commits its hash was not recognised; clause (b) is not decided")
+
+
+# ---- T5: no state of an earlier proof decides anything in a later one ----------------------------------------------------------------
+
+def _mut_fields(f, adt=FP):
+    """fields of *self that f assigns or borrows mutably: {field: [(block, index, 'store'|'borrow')]}"""
+    out = {}
+    for b, i, st in f.assigns():
+        lhs = st.get("lhs") or {}
+        pr = lhs.get("p", [])
+        fl = [e for e in pr if isinstance(e, dict) and e.get("of") == adt and e.get("n")]
+        if lhs.get("l") == 1 and fl:
+            out.setdefault(fl[0]["n"], []).append((b, i, "store" if len([e for e in pr if isinstance(e, dict)]) == 1 else "part"))
+        rv = st["rv"]
+        if rv["k"] == "ref" and rv.get("mut") and rv["p"].get("l") == 1:
+            fl = [e for e in rv["p"].get("p", []) if isinstance(e, dict) and e.get("of") == adt and e.get("n")]
+            if fl:
+                out.setdefault(fl[0]["n"], []).append((b, i, "borrow"))
+    return out
+
+
+def carried_state(ck, prog, bli, rs):
+    """`reset()` is what makes a prover reusable: every field that building a proof writes must be re-initialised by it, or be overwritten
+    unconditionally by the next build. A field that survives `reset()` and is rebuilt only behind an ORDERING test on its own size (`len <
+    needed`) is a cache that is kept whenever it is merely large enough — its contents then belong to the previous proof's domain (seed
+    C15-L). A rebuild decided by an equality test on a key is not judged (a correctly keyed cache has that shape); it is reported as not
+    decided."""
+    w = _mut_fields(bli)
+    r = _mut_fields(rs)
+    survivors = sorted(set(w) - set(r))
+    ck.stats["T: fields written while building layers / re-initialised by reset"] = (sorted(w), sorted(r))
+    for fld in survivors:
+        stores = [(b, i) for b, i, k in w[fld] if k == "store"]
+        if not stores:
+            ck.note(f"T: field `{fld}` is modified in place while building layers and not touched by reset(); not decided")
+            continue
+        verdicts = []
+        for b, i in stores:
+            # the decisions this store is control-dependent on
+            conds = []
+            for sb in range(len(bli.blocks)):
+                t = bli.term(sb)
+                if t["k"] != "switch":
+                    continue
+                succs = {tb for _, tb in t["targets"]} | {t["otherwise"]}
+                reach_sets = [((b, S) in reach(bli, [(x, S)])) for x in succs]
+                if any(reach_sets) and not all(reach_sets):
+                    conds.append(trace_cond(bli, t["d"]))
+            orderings = [c for c in conds if c.kind == "cmp" and c.op in ("<", "<=", ">", ">=")]
+            equalities = [c for c in conds if c.kind == "cmp" and c.op in ("==", "!=")]
+            g = flow(bli)
+            own = []
+            for c in orderings:
+                fl = set()
+                for side in (c.lhs, c.rhs):
+                    fl |= {x for a, x in g.fields_in(g.walk(ops=[side], at=(b, i)))}
+                if fld in fl:
+                    own.append(c)
+            if not conds:
+                verdicts.append("always")
+            elif own and not equalities:
+                verdicts.append("size-only")
+            else:
+                verdicts.append("other")
+        if all(v == "always" for v in verdicts):
+            continue     # overwritten by every build: nothing is carried over
+        if "size-only" in verdicts:
+            ck.ob("T", f"reset:reinitialises:{fld}", False,
+                  f"state written while building a proof does not outlive reset(): `{fld}`", loc=bli.loc(*stores[0]),
+                  detail=f"`{fld}` survives reset() and is rebuilt only when an ordering test on its own size fails: a prover reused for a different "
+                         "(smaller) domain keeps the table computed for the previous one")
+        else:
+            ck.note(f"T: field `{fld}` survives reset() and is rebuilt conditionally; whether the condition identifies its contents is not decided")
